@@ -439,6 +439,9 @@ func c08OpTable(c *core.Ctx) {
 	forEachOpCase(opts, func(oc OpCase) {
 		// one representative configuration per (operation kind, arity) is enough here
 		key := fmt.Sprintf("%s/%d", oc.Op.K, len(oc.In))
+		if oc.Op.K == "Scale" || oc.Op.K == "Pow" {
+			key = fmt.Sprintf("%s/%g", oc.Op.K, oc.Op.F) // a constant exponent / factor may get its own shortcut
+		}
 		if seen[key] {
 			return
 		}
